@@ -90,6 +90,19 @@ class Ledger:
         self.judge_limits = True
         self.events = []
         self.max_open = 0
+        self.waiting = {}        # worker inside connect() -> peak load seen during the call
+
+    def load_for(self, name):
+        return self.slots + sum(1 for w, b in self.in_op.items() if b and w != name)
+
+    def touch(self):
+        """Called after every change of slots / in_op: remembers, for every worker that is
+        inside connect(), the highest load (live checkouts + other workers mid-operation,
+        which may hold a record in transit) seen at any time during that call."""
+        for w in self.waiting:
+            ld = self.load_for(w)
+            if ld > self.waiting[w]:
+                self.waiting[w] = ld
 
     def ev(self, *a):
         if len(self.events) < 400:
@@ -116,30 +129,40 @@ class Ledger:
 def qp_worker(ctx, pool, led, name, prog, exc_mod, rng_choices):
     """Returns the function executed by one managed thread."""
 
+    def set_op(flag):
+        led.in_op[name] = flag
+        led.touch()
+
+    def slots(delta):
+        led.slots += delta
+        led.touch()
+
     def run():
         held = []
         k = 0
         try:
             for op in prog:
-                led.in_op[name] = True
+                set_op(True)
                 if op == "co":
+                    led.waiting[name] = led.load_for(name)
                     try:
                         f = pool.connect()
                     except exc_mod.TimeoutError:
-                        led.ev(name, "timeout", led.slots)
+                        peak = led.waiting.pop(name)
+                        led.ev(name, "timeout", led.slots, peak)
                         ctx.count("timeout_errors")
-                        # other workers that are inside an operation may hold a record in
-                        # transit (a notified waiter can be robbed by a barging thread and
-                        # then find its deadline passed): count them as using a slot.
-                        transit = sum(1 for w, b in led.in_op.items() if b and w != name)
-                        if led.judge_limits and led.limit is not None and led.slots + transit < led.limit:
+                        # TimeoutError is legitimate if at ANY time during this connect() call
+                        # the load (live checkouts + other workers mid-operation, which may
+                        # hold a record in transit: barging is legitimate) reached the limit.
+                        if led.judge_limits and led.limit is not None and peak < led.limit:
                             ctx.violation(
                                 "timeout-with-free-capacity",
-                                f"TimeoutError with {led.slots} live checkouts (+{transit} in transit) < limit {led.limit}, cfg={led.cfg}",
+                                f"TimeoutError although load never exceeded {peak} < limit {led.limit} during the whole wait, cfg={led.cfg}",
                                 {"cfg": led.cfg, "events": led.events[-60:]},
                             )
-                        led.in_op[name] = False
+                        set_op(False)
                         continue
+                    led.waiting.pop(name, None)
                     raw = f.dbapi_connection
                     led.ev(name, "got", raw.cid)
                     if raw.closed:
@@ -151,7 +174,7 @@ def qp_worker(ctx, pool, led, name, prog, exc_mod, rng_choices):
                             {"cfg": led.cfg, "events": led.events[-60:]},
                         )
                     led.holders[raw.cid] = name
-                    led.slots += 1
+                    slots(+1)
                     held.append(f)
                     ctx.count("checkouts")
                 elif held:
@@ -163,41 +186,42 @@ def qp_worker(ctx, pool, led, name, prog, exc_mod, rng_choices):
                     led.ev(name, op, raw.cid if raw is not None else None)
                     if op == "ci":
                         f.close()
-                        led.slots -= 1
+                        slots(-1)
                     elif op == "inv":
                         f.invalidate()
                         f.close()
-                        led.slots -= 1
+                        slots(-1)
                     elif op == "sinv":
                         f.invalidate(soft=True)
                         f.close()
-                        led.slots -= 1
+                        slots(-1)
                     elif op == "det":
                         led.detached.add(raw.cid)
                         f.detach()
-                        led.slots -= 1
+                        slots(-1)
                         f.close()
                     elif op == "drop":
                         del f  # refcount finaliser -> _finalize_fairy in this thread
-                        led.slots -= 1
+                        slots(-1)
                     elif op == "dispose":
                         led.holders[raw.cid] = name
                         held.append(f)
                         led.judge_limits = False
                         pool.dispose()
                     f = None
-                led.in_op[name] = False
+                set_op(False)
         finally:
-            led.in_op[name] = True
+            set_op(True)
             while held:
                 f = held.pop()
                 raw = f.dbapi_connection
                 if raw is not None:
                     led.holders.pop(raw.cid, None)
+                led.ev(name, "final-close", raw.cid if raw is not None else None)
                 f.close()
-                led.slots -= 1
+                slots(-1)
                 f = None
-            led.in_op[name] = False
+            set_op(False)
 
     return run
 
@@ -396,7 +420,7 @@ def run_async(ctx, rng):
 
     n = ctx.pick({"quick": 40, "thorough": 1500})
     for it in range(n):
-        if not ctx.budget_ok():
+        if it >= 4 and not ctx.budget_ok(0.75):
             break
         cfg = {"pool_size": rng.choice([1, 1, 2]), "max_overflow": rng.choice([0, 0, 1]), "ntasks": rng.randint(2, 4)}
         limit = cfg["pool_size"] + cfg["max_overflow"]
@@ -414,7 +438,7 @@ def run_async(ctx, rng):
             return c
 
         pool = sa_pool.AsyncAdaptedQueuePool(creator, pool_size=cfg["pool_size"], max_overflow=cfg["max_overflow"],
-                                             timeout=0.2, reset_on_return=None)
+                                             timeout=10.0, reset_on_return=None)
         yields = [rng.randint(0, 3) for _ in range(40)]
         timeouts = [0]
 
@@ -427,9 +451,9 @@ def run_async(ctx, rng):
                 try:
                     f = await greenlet_spawn(pool.connect)
                 except sa_exc.TimeoutError:
+                    # AsyncAdaptedQueuePool waits on real (wall-clock) time: on a loaded
+                    # machine a timeout is not evidence of anything - counted, never judged
                     timeouts[0] += 1
-                    if state["slots"] < limit:
-                        ctx.violation("async-timeout-with-free-capacity", f"slots={state['slots']} limit={limit} cfg={cfg}", {"cfg": cfg})
                     continue
                 raw = f.dbapi_connection
                 if raw.cid in holders:
@@ -505,7 +529,7 @@ def run(ctx):
         lock_selfcheck(sched_mod, rng)
         nsched = ctx.pick({"quick": 450, "thorough": 12000})
         for it in range(nsched):
-            if not ctx.budget_ok():
+            if it >= 15 and not ctx.budget_ok(0.45):
                 break
             cfg = {
                 "pool_size": rng.choice([0, 1, 1, 2]),
@@ -521,7 +545,7 @@ def run(ctx):
             if it < 3:
                 ctx.sample({"cfg": cfg, "progs": progs})
         for it in range(ctx.pick({"quick": 12, "thorough": 400})):
-            if not ctx.budget_ok():
+            if it >= 3 and not ctx.budget_ok(0.55):
                 break
             run_simple_pool_schedule(ctx, sa_pool, sched_mod, ["null", "singleton", "static"][it % 3], rng.randint(2, 3), rng)
         # bounded-preemption enumeration on a small configuration
@@ -531,7 +555,8 @@ def run(ctx):
             ({"pool_size": 1, "max_overflow": 0, "timeout": 0.5, "lifo": True}, [["co", "det"], ["co", "drop"]]),
             ({"pool_size": 2, "max_overflow": 0, "timeout": 0.5, "lifo": False}, [["co", "sinv", "co"], ["co", "ci"], ["co", "ci"]]),
         ]
+    run_async(ctx, rng)
+    with instr:
         cfgi = (ctx.shard + ctx.seed) % len(small)
         cfg, progs = small[cfgi]
         enumerate_bounded(ctx, sa_pool, sa_exc, sched_mod, dict(cfg), progs, rng, max_pre=1 if ctx.quick else 2)
-    run_async(ctx, rng)
